@@ -18,6 +18,7 @@ RULE = ("(kernel) generated parameters for Binary/Purification RBMs (n 1..4, nh 
         "threshold (false-alarm prob <= 1e-12 per case). Non-trivial = all biases non-zero, nh != nv or na != nv, k >= 1, and for "
         "histories some uniform fell on each side of its probability.")
 RULE_EXT = ('Extended as built: the start state seen by the kernel is learned from a spy on gibbs_steps; results of earlier calls are held and re-verified after later calls; float32 start states; default start must be random and of the right shape; effective_energy(v, a) with explicit auxiliary units. Rounds 5-6: the public sample_h_given_v / sample_v_given_h / sample_a_given_v / sample_v_given_ha called directly without and with out= under the scripted Bernoulli monitor; num_aux = 0.')
+RULE_EXT += ' Round 10 (after an exception / long time axis): histories with refused sample() calls (wrong width, non-integer k, read-only start with overwrite; caught) and chains of 16-37 steps; empirical law for k up to 200 on slowly mixing networks (label law_after_16_steps_differs).'
 RULE = RULE + " " + RULE_EXT
 ASSUMPTIONS = ["(history) the implementation draws through torch.bernoulli; if the monitor sees no call for k>0 it declares itself "
                "inapplicable instead of raising", "(empirical) power limited to deviations >= ~3% in some state probability",
